@@ -380,7 +380,7 @@ func (r *Renderer) renderHTMLBlock(
 			l := n.Lines().Len()
 			for i := 0; i < l; i++ {
 				line := n.Lines().At(i)
-				r.Writer.SecureWrite(w, line.Value(source))
+				r.writeHTMLBlockLine(w, line.Value(source))
 			}
 		} else {
 			_, _ = w.WriteString("<!-- raw HTML omitted -->\n")
@@ -389,13 +389,22 @@ func (r *Renderer) renderHTMLBlock(
 		if n.HasClosure() {
 			if r.Unsafe {
 				closure := n.ClosureLine
-				r.Writer.SecureWrite(w, closure.Value(source))
+				r.writeHTMLBlockLine(w, closure.Value(source))
 			} else {
 				_, _ = w.WriteString("<!-- raw HTML omitted -->\n")
 			}
 		}
 	}
 	return ast.WalkContinue, nil
+}
+
+// writeHTMLBlockLine writes a line of an HTML block. The last line of the
+// source may lack a line ending (EOF as newline).
+func (r *Renderer) writeHTMLBlockLine(w util.BufWriter, line []byte) {
+	r.Writer.SecureWrite(w, line)
+	if len(line) != 0 && line[len(line)-1] != '\n' {
+		_ = w.WriteByte('\n')
+	}
 }
 
 // ListAttributeFilter defines attribute names which list elements can have.
